@@ -247,15 +247,20 @@ Definition written_surfaces {T : Type} (surfs : list (Z * desc T)) (dic : list (
   if forallb (fun s => match lookup s surfs with Some _ => true | None => false end) used
   then Ok used else Err EKey end.
 
+(* convertMCNPGeometry: `if not args.skip_deduplication:` *)
+Definition dedup_stage {T : Type} (S : Scalar T) (skip_dedup : bool)
+    (surfs : list (Z * desc T)) (volus : list (Z * volu))
+  : res (list (Z * desc T) * list (Z * volu)) :=
+  if skip_dedup then Ok (surfs, volus)
+  else let '(s', ren) := remove_duplicate_surfaces S surfs in
+       match renumber_surfaces volus ren with Ok v' => Ok (s', v') | Err e => Err e end.
+
 (* convertMCNPGeometry after construct_volume_t4, then the SURF lines of
    writeT4Geometry: (surfaces, volumes, ids of the SURF lines written) *)
 Definition finish {T : Type} (S : Scalar T) (skip_dedup : bool)
     (surfs : list (Z * desc T)) (volus : list (Z * volu)) (u0 u1 : Z)
   : res (list (Z * desc T) * list (Z * volu) * list Z) :=
-  let dd := if skip_dedup then Ok (surfs, volus)
-            else let '(s', ren) := remove_duplicate_surfaces S surfs in
-                 match renumber_surfaces volus ren with Ok v' => Ok (s', v') | Err e => Err e end in
-  match dd with
+  match dedup_stage S skip_dedup surfs volus with
   | Err e => Err e
   | Ok (s', v') =>
       match remove_empty_volumes v' u0 u1 with
@@ -435,8 +440,41 @@ Definition cells_of_universe (dic : list (Z * mcell)) (u : Z) : list Z :=
    call, from the original table [dic0]; new cells go to the end of the
    table with keys counter+1, counter+2, ...  Returns the keys that replace
    [key], the table and the counter. *)
-Fixpoint pot_fill (fuel : nat) (fd fg : bool) (dic0 : list (Z * mcell))
-    (key : Z) (st : list (Z * mcell) * Z) : res (list Z * (list (Z * mcell) * Z)) :=
+Definition fstate := (list (Z * mcell) * Z)%type.
+
+(* to_process: pot_fill ([rec]) of every cell of the filling universe *)
+Fixpoint fill_each (rec : Z -> fstate -> res (list Z * fstate)) (elts : list Z) (st : fstate)
+  : res (list Z * fstate) :=
+  match elts with
+  | [] => Ok ([], st)
+  | e :: r =>
+      match rec e st with
+      | Err er => Err er
+      | Ok (ks, st1) =>
+          match fill_each rec r st1 with
+          | Err er => Err er
+          | Ok (ks', st2) => Ok (ks ++ ks', st2)
+          end
+      end
+  end.
+
+(* one new cell per element of to_process *)
+Fixpoint make_cells (fd fg : bool) (key : Z) (cell : mcell) (elts : list Z) (st : fstate) (acc : list Z)
+  : res (list Z * fstate) :=
+  match elts with
+  | [] => Ok (acc, st)
+  | e :: r =>
+      match lookup e (fst st) with
+      | None => Err EKey
+      | Some ec =>
+          let g := fill_geometry fd fg key (cgeom cell) e (cgeom ec) in
+          let k' := snd st + 1 in
+          make_cells fd fg key cell r (update k' (mkCell (cuniv cell) None g) (fst st), k') (acc ++ [k'])
+      end
+  end.
+
+Fixpoint pot_fill (fuel : nat) (fd fg : bool) (dic0 : list (Z * mcell)) (key : Z) (st : fstate)
+  : res (list Z * fstate) :=
   match fuel with
   | O => Err EFuel
   | S f =>
@@ -446,38 +484,49 @@ Fixpoint pot_fill (fuel : nat) (fd fg : bool) (dic0 : list (Z * mcell))
           match cfill cell with
           | None => Ok ([key], st)
           | Some u =>
-              (* to_process: pot_fill of every cell of the filling universe *)
-              match
-                (fix go (elts : list Z) (st : list (Z * mcell) * Z) : res (list Z * (list (Z * mcell) * Z)) :=
-                   match elts with
-                   | [] => Ok ([], st)
-                   | e :: r =>
-                       match pot_fill f fd fg dic0 e st with
-                       | Err er => Err er
-                       | Ok (ks, st1) =>
-                           match go r st1 with
-                           | Err er => Err er
-                           | Ok (ks', st2) => Ok (ks ++ ks', st2)
-                           end
-                       end
-                   end) (cells_of_universe dic0 u) st
-              with
+              match fill_each (pot_fill f fd fg dic0) (cells_of_universe dic0 u) st with
               | Err er => Err er
-              | Ok (to_process, st1) =>
-                  (fix mk (elts : list Z) (st : list (Z * mcell) * Z) (acc : list Z)
-                     : res (list Z * (list (Z * mcell) * Z)) :=
-                     match elts with
-                     | [] => Ok (acc, st)
-                     | e :: r =>
-                         match lookup e (fst st) with
-                         | None => Err EKey
-                         | Some ec =>
-                             let g := fill_geometry fd fg key (cgeom cell) e (cgeom ec) in
-                             let k' := snd st + 1 in
-                             mk r (update k' (mkCell (cuniv cell) None g) (fst st), k') (acc ++ [k'])
-                         end
-                     end) to_process st1 []
+              | Ok (to_process, st1) => make_cells fd fg key cell to_process st1 []
               end
           end
+      end
+  end.
+
+(* the FILL loop of construct_volume_t4: pot_fill on every level-0 cell that has
+   a FILL, in dict order (the list is computed before the loop) *)
+Definition fill_keys (dic : list (Z * mcell)) : list Z :=
+  map fst (filter (fun kv => match cfill (snd kv) with
+                             | Some _ => Z.eqb (cuniv (snd kv)) 0
+                             | None => false end) dic).
+
+Fixpoint fill_loop (fuel : nat) (fd fg : bool) (dic0 : list (Z * mcell)) (keys : list Z) (st : fstate)
+  : res fstate :=
+  match keys with
+  | [] => Ok st
+  | k :: r =>
+      match pot_fill fuel fd fg dic0 k st with
+      | Err e => Err e
+      | Ok (_, st') => fill_loop fuel fd fg dic0 r st'
+      end
+  end.
+
+(* ---------- the option vector and the cell-level stage it controls ---------- *)
+(* max_inline_score acts only through the set of cells it selects; the set is a
+   free parameter here (one per option vector) *)
+Record options := mkOptions {
+  skip_dedup : bool;          (* --skip-deduplication *)
+  inline_filled : bool;       (* --always-inline-filled *)
+  inline_filling : bool;      (* --always-inline-filling *)
+  to_inline : list Z }.       (* what --max-inline-score selects *)
+
+(* construct_volume_t4 between "treat FILL" and "consider inlining cells" *)
+Definition cell_stage (fuel : nat) (o : options) (dic : list (Z * mcell)) (counter : Z)
+  : res fstate :=
+  match fill_loop fuel (inline_filled o) (inline_filling o) dic (fill_keys dic) (dic, counter) with
+  | Err e => Err e
+  | Ok (d1, c1) =>
+      match inline_cells fuel (to_inline o) d1 with
+      | Err e => Err e
+      | Ok d2 => Ok (d2, c1)
       end
   end.
